@@ -15,6 +15,8 @@ type Unsubscribe struct {
 	PacketID   PacketID
 	Topics     []string
 	Properties *Properties
+	// Dup is the DUP flag MQTT 3.1 had on UNSUBSCRIBE (always false for later versions)
+	Dup bool
 }
 
 func (u *Unsubscribe) String() string {
@@ -39,6 +41,7 @@ func NewUnsubscribePacket(fh *FixHeader, version Version, r io.Reader) (*Unsubsc
 	if fh.Flags != FlagUnsubscribe && !(version == Version31 && fh.Flags == FlagUnsubscribe|0x08) {
 		return nil, codes.ErrMalformed
 	}
+	p.Dup = fh.Flags&0x08 != 0
 	err := p.Unpack(r)
 	if err != nil {
 		return nil, err
@@ -49,6 +52,9 @@ func NewUnsubscribePacket(fh *FixHeader, version Version, r io.Reader) (*Unsubsc
 // Pack encodes the packet struct into bytes and writes it into io.Writer.
 func (u *Unsubscribe) Pack(w io.Writer) error {
 	u.FixHeader = &FixHeader{PacketType: UNSUBSCRIBE, Flags: FlagUnsubscribe}
+	if u.Dup && u.Version == Version31 {
+		u.FixHeader.Flags |= 0x08
+	}
 	bufw := getBuffer()
 	defer putBuffer(bufw)
 	writeUint16(bufw, u.PacketID)
